@@ -103,6 +103,8 @@ def make_replayer():
                 'error': bat.err}
         names = [fn] + (['pack', 'unpack'] if fn in ('pack', 'unpack')
                         else [])
+        if fn == 'sgemv':
+            names.append('sgemv')
         hits = {k: v for k, v in bat.result.items() if k in names}
         info = {'battery': 'engine/replay/kernel_battery.py on an overlay '
                 'build of the current tree: compiled kernel against the '
@@ -116,10 +118,23 @@ def make_replayer():
     return replayer
 
 
+PYFUNCS = [('misc.py', 'contracts.py.misc_kernels_spec', f)
+           for f in ('sgemv', 'snrm2', 'jdot', 'jnrm2')]
+
+
 def run(report, tier, seed):
     reps = cside.run_tasks(tasks(tier))
     c_common.feed(report, reps, KINDS)
     lemma_obligations(report, tier)
+    # the kernels written in Python (active code of misc.py)
+    from engine import pyside
+    from engine.checks import py_common
+    preps = pyside.run_tasks(py_common.tasks_for(PYFUNCS, tier))
+    n0 = len(report.obs)
+    py_common.feed(report, preps, props=('C08',))
+    for ob in report.obs[n0:]:
+        parts = ob.oid.split(':')
+        ob.meta['fn'] = parts[1] if len(parts) > 1 else ''
     report.replayer = make_replayer()
     report.floor = 100
     report.extra['explanation'] = (
@@ -130,10 +145,12 @@ def run(report, tier, seed):
         'block, each entry once, inside the block, and that unpack undoes '
         'pack.')
     report.not_decided += [
-        'scale, scale2, sprod, ssqr, sinv, max_step, pack2, sgemv, jdot, '
-        'jnrm2, snrm2: value identities through data-dependent floating-'
-        'point arithmetic (scale/inverse, sinv/sprod, <Wx,y> = <x,W\'y>, '
-        'max_step minimality, eigen-decomposition)',
+        'scale, scale2, sprod, ssqr, sinv, max_step, pack2: value '
+        'identities through data-dependent floating-point arithmetic '
+        '(scale/inverse, sinv/sprod, <Wx,y> = <x,W\'y>, max_step '
+        'minimality, eigen-decomposition); sgemv, snrm2, jdot, jnrm2 are '
+        'decided as compositions of library calls (arguments and result '
+        'formula), the numerical result of those calls is not',
         'the pure-Python fall-backs in misc.py (dead code while use_C = '
         'True): not verified, so "both implementations agree" is not decided',
         'rounding: the factors are compared as the code computes them '
